@@ -309,6 +309,26 @@ func run(c Case) {
 		h.Outcome("bad-key")
 		return
 	}
+	if c.Fail == "over-capacity" {
+		// the key is fine, a secret does not fit into one RSA-OAEP block: the login must fail, and
+		// neither the error text (checked above) nor any written byte may carry a secret
+		if res.Err == nil {
+			h.Violate("C09|over-capacity-secret-accepted", fmt.Sprintf("%s: Login succeeded although a secret exceeds the capacity of the server's key", ctxt), c)
+			return
+		}
+		for _, s := range secrets {
+			if len(s) >= 12 && strings.Contains(s, "secret") {
+				for i, w := range res.Writes {
+					if bytes.Contains(w, []byte(s)) {
+						h.Violate("C09|secret-on-the-wire|"+cls, fmt.Sprintf("%s: transport write %d carries a secret in clear", ctxt, i), c)
+						return
+					}
+				}
+			}
+		}
+		h.Outcome("over-capacity-rejected")
+		return
+	}
 	if len(msgs) < 2 {
 		h.Violate("C09|message2-missing|"+cls, fmt.Sprintf("%s: the client sent %d messages (login error: %v)", ctxt, len(msgs), res.Err), c)
 		return
@@ -478,6 +498,11 @@ func main() {
 				}
 				// over-capacity password: must fail without leaking
 				emit(Case{Encrypt: true, KeyBits: bits, Nonce: n, Password: rep("over-capacity-secret-", capacity-n+1), User: "sa", Host: "client-host", App: "my-application", Fail: "bad-key"})
+				// ... also with a usable key (the encryption itself fails), for the account password and for a remote server's
+				emit(Case{Encrypt: true, KeyBits: bits, Nonce: n, Password: rep("over-capacity-secret-", capacity-n+1), User: "sa", Host: "client-host", App: "my-application", Fail: "over-capacity"})
+				emit(Case{Encrypt: true, KeyBits: bits, Nonce: n, Password: pw, User: "sa", Host: "client-host", App: "my-application",
+					Remotes: [][2]string{{"R1", "remote-secret-number-one"}, {"R2", rep("over-capacity-remote-secret-", capacity-n+7)}}, Fail: "over-capacity"})
+				h.Section("over-capacity", 2)
 			}
 		}
 	}
